@@ -673,13 +673,13 @@ Qed.
 
 (* RTwoDefaults *)
 Lemma fs_add_key_seen k t st : st_default_seen (fs_add_key k t st) = st_default_seen st.
-Proof. unfold fs_add_key. destruct (mem_str k (st_keys st)); reflexivity. Qed.
+Proof. unfold fs_add_key. destruct (shadowed k st || mem_str k (st_keys st)); reflexivity. Qed.
 Lemma fs_add_arm_seen a st : st_default_seen (fs_add_arm a st) = st_default_seen st.
 Proof. reflexivity. Qed.
 Lemma fs_serialization_seen ph ci idx ps st lit :
   st_default_seen (fs_serialization ph ci idx ps st lit) = st_default_seen st.
 Proof.
-  unfold fs_serialization. destruct ph, ci; rewrite ?fs_add_arm_seen, ?fs_add_key_seen; reflexivity.
+  unfold fs_serialization. destruct ph, ci; rewrite ?fs_add_arm_seen; unfold fs_add_ci; cbn [st_default_seen]; rewrite ?fs_add_key_seen; reflexivity.
 Qed.
 Lemma fold_ser_seen ph ci idx ps : forall l st,
   st_default_seen (fold_left (fs_serialization ph ci idx ps) l st) = st_default_seen st.
